@@ -1043,10 +1043,30 @@ class LayoutTranslator:
         o = lambda v: "None" if v is None else "(Some %s)" % _z(v)
         return "(mk_field %s false %s %s %s %s %s %s %s)" % (name, o(st), o(sz), _z(it.minimum_value), _z(it.maximum_value), ft, bot, at)
 
-    def translate(self):
+    def collect_all(self):
         mod_default = self.default_border(self.mod.attribute)
         for td in self.mod.type:
             self.collect(td, [mod_default])
+        return self
+
+    def field_borders(self):
+        """Per structure, per field: the (non-default) byte_order attribute present on the field."""
+        out = []
+        for td, _ in self.structs:
+            row = []
+            for f in td.structure.field:
+                a = self.explicit(f.attribute, "byte_order")
+                if a is None:
+                    row.append("None")
+                elif a.value.has_field("string_constant") and a.value.string_constant.text in _BORDER:
+                    row.append("Some %s" % _BORDER[a.value.string_constant.text])
+                else:
+                    raise OutOfModel("byte-order-value")
+            out.append("[" + "; ".join(row) + "]")
+        return "[" + "; ".join(out) + "]"
+
+    def translate(self):
+        self.collect_all()
         enums = []
         for td in self.enums:
             mb = self.explicit(td.attribute, "maximum_bits")
@@ -1136,6 +1156,19 @@ def _analyse_c14(args):
         out["layout"] = ("accept", [])
     try:
         out["coq"] = LayoutTranslator(ir).translate()
+        # the byte orders the front end's own normalisation leaves on the fields (also when it then
+        # reports errors): run the pass on a fresh IR and read the attributes back
+        out["borders"] = None
+        st2, ir2 = compile_emb(text, stop="normalize_and_verify", name=name, extra=extra, repo=repo)
+        if st2 == "ok":
+            from compiler.front_end import attribute_checker
+            try:
+                attribute_checker.normalize_and_verify(ir2)
+                normalised = any(a.name.text == "expected_back_ends" for a in ir2.module[0].attribute)
+            except Exception:
+                normalised = False
+            if normalised:
+                out["borders"] = LayoutTranslator(ir2).collect_all().field_borders()
     except OutOfModel as ex:
         out["oom"] = str(ex)
     except TranslatorError as ex:
